@@ -1359,6 +1359,31 @@ def functional_to_loops(fn: ast.FunctionDef, helper_names=()) -> bool:
                     changed[0] = True
                     out += block(new)
                     continue
+            # `if not all(P for x in G): <leave>`  is  `for x in G: if not P: <leave>`   (any: `if any(..)`)
+            if isinstance(st, ast.If) and not st.orelse and st.body and isinstance(st.body[-1], (ast.Return, ast.Raise)):
+                t = st.test
+                neg = isinstance(t, ast.UnaryOp) and isinstance(t.op, ast.Not)
+                call = t.operand if neg else t
+                if isinstance(call, ast.Call) and isinstance(call.func, ast.Name) and len(call.args) == 1 and \
+                        not call.keywords and isinstance(call.args[0], ast.GeneratorExp) and \
+                        ((neg and call.func.id == 'all') or (not neg and call.func.id == 'any')) and \
+                        any(isinstance(g.iter, ast.Call) and (
+                            (isinstance(g.iter.func, ast.Name) and g.iter.func.id in helper_names) or
+                            (isinstance(g.iter.func, ast.Attribute) and g.iter.func.attr in helper_names))
+                            for g in call.args[0].generators):
+                    ge_ = call.args[0]
+                    inner_test = ast.UnaryOp(op=ast.Not(), operand=ge_.elt) if call.func.id == 'all' else ge_.elt
+                    body_: List[ast.stmt] = [ast.If(test=inner_test, body=st.body, orelse=[])]
+                    for gen in reversed(ge_.generators):
+                        for tst in reversed(gen.ifs):
+                            body_ = [ast.If(test=tst, body=body_, orelse=[])]
+                        body_ = [ast.For(target=gen.target, iter=gen.iter, body=body_, orelse=[])]
+                    for s_ in body_:
+                        ast.copy_location(s_, st)
+                        ast.fix_missing_locations(s_)
+                    changed[0] = True
+                    out += block(body_)
+                    continue
             # x = x + e  is  x += e
             if isinstance(st, ast.Assign) and len(st.targets) == 1 and isinstance(st.targets[0], ast.Name) and \
                     isinstance(st.value, ast.BinOp) and isinstance(st.value.op, (ast.Add, ast.Sub)) and \
@@ -1530,12 +1555,23 @@ def normalise_module(tree: ast.Module, modname: str) -> Dict[str, List[str]]:
     # literal tables (dict / tuple / list / set displays) bound once at module level that the reference tree does not
     # have: a constant moved out of a function; read where it is used
     new_consts: Dict[str, ast.AST] = {}
+    mutated_tops = set()
+    for x in ast.walk(tree):
+        if isinstance(x, ast.Subscript) and isinstance(x.ctx, (ast.Store, ast.Del)) and isinstance(x.value, ast.Name):
+            mutated_tops.add(x.value.id)
+        if isinstance(x, ast.Call) and isinstance(x.func, ast.Attribute) and isinstance(x.func.value, ast.Name) and \
+                x.func.attr in ('append', 'extend', 'add', 'update', 'setdefault', 'pop', 'clear', 'insert', 'remove',
+                                'popitem', 'discard', 'sort'):
+            mutated_tops.add(x.func.value.id)
+        if isinstance(x, (ast.Global,)):
+            mutated_tops |= set(x.names)
     for st in tree.body:
         tgt = st.targets[0] if isinstance(st, ast.Assign) and len(st.targets) == 1 else \
             st.target if isinstance(st, ast.AnnAssign) else None
         if isinstance(tgt, ast.Name) and isinstance(getattr(st, 'value', None), (ast.Dict, ast.Tuple, ast.List, ast.Set)) \
-                and counts.get(tgt.id) == 1 and tgt.id not in known_tops:
-            new_consts[tgt.id] = st.value
+                and counts.get(tgt.id) == 1 and tgt.id not in known_tops and tgt.id not in mutated_tops and \
+                (isinstance(st.value, ast.Tuple) or (st.value.keys if isinstance(st.value, ast.Dict) else st.value.elts)):
+            new_consts[tgt.id] = st.value      # a table: never written to, not empty (an empty dict / list is a store)
     # literal tables bound once in a class body that the reference tree does not have
     class_consts: Dict[str, Dict[str, ast.AST]] = {}
     known_cc = set((inv.get('__classconsts__') or '').split())
